@@ -209,7 +209,33 @@ func (b *progBuilder) step(allowed []int) []int {
 		}
 		b.add(ref.Instr{Op: "broadcast", In: []int{x}, Shape: shape})
 	case 15:
-		b.add(ref.Instr{Op: "patch", In: []int{x, x}, Index: nil}) // whole-tensor patch of a node into itself (2 edges to one target)
+		cands := b.sameShape(allowed, v.Shape, x)
+		switch q := b.r.Intn(3); {
+		case q == 0 && len(cands) > 0: // x completely overwritten by a different same-shape node (x's share is all zeros), nil or explicit full index
+			var idx []ref.Range
+			if b.r.Intn(2) == 0 {
+				for _, d := range v.Shape {
+					idx = append(idx, ref.Range{From: 0, To: d})
+				}
+			}
+			b.add(ref.Instr{Op: "patch", In: []int{x, cands[b.r.Intn(len(cands))]}, Index: idx})
+		case q == 1 && rank >= 1: // a block cut out of a same-shape node (or of x itself) patched back in at another offset
+			src := x
+			if len(cands) > 0 && b.r.Intn(2) == 0 {
+				src = cands[b.r.Intn(len(cands))]
+			}
+			cut := make([]ref.Range, rank)
+			at := make([]ref.Range, rank)
+			for d, n := range v.Shape {
+				w := 1 + b.r.Intn(n)
+				o1, o2 := b.r.Intn(n-w+1), b.r.Intn(n-w+1)
+				cut[d], at[d] = ref.Range{From: o1, To: o1 + w}, ref.Range{From: o2, To: o2 + w}
+			}
+			blk := b.add(ref.Instr{Op: "slice", In: []int{src}, Index: cut})
+			b.add(ref.Instr{Op: "patch", In: []int{x, blk}, Index: at})
+		default:
+			b.add(ref.Instr{Op: "patch", In: []int{x, x}, Index: nil}) // whole-tensor patch of a node into itself (2 edges to one target)
+		}
 	case 16: // order statistics and spread along a dimension, only where they are differentiable with a margin
 		if rank >= 1 {
 			dim := b.r.Intn(rank)
